@@ -541,6 +541,32 @@ def fam_bound(tier, rng):
     return ops
 
 
+def fam_bigcount(tier, rng):
+    """element counts at and above 65536 (the five-byte count prefix): lists far beyond what the list-based model can
+    execute, run on the implementation only against the model-free oracles (rust-bitcoin traversal, partition,
+    prefixes, iterator, allocation)"""
+    ops = []
+    pat = Pat(13)
+    out9 = lambda i: struct.pack("<Q", i) + b"\x00"
+    inp = lambda i: bytes([(i * 7 + j) % 256 for j in range(32)]) + struct.pack("<I", i) + b"\x00" + struct.pack("<I", 0xFFFFFFFF)
+    for n in (65535, 65536, 65537) if tier == "quick" else (65535, 65536, 65537, 70000, 131072):
+        outs = cs(n) + b"".join(out9(i) for i in range(n))
+        ops.append("visit txouts n " + hx(outs))
+        ops.append(f"visit txouts b{n - 1} " + hx(outs))
+        ops.append("redb txouts " + hx(outs))
+        if n <= 65537:
+            ins = cs(n) + b"".join(inp(i) for i in range(n))
+            ops.append("visit txins n " + hx(ins))
+            ops.append("visit tx n " + hx(struct.pack("<i", 1) + ins + cs(1) + out9(1) + struct.pack("<I", 0)))
+        wit = cs(n) + b"\x00" * n
+        ops.append("visit witness n " + hx(wit + b"\x07"))
+        ops.append(f"visit witnesses:{n} n " + hx(b"\x00" * (n - 1) + b"\x01\x01\x55"))
+        if n == 65536:
+            tiny = bytes([1, 0, 0, 0, 0, 1, 0, 0, 0, 0, 0, 0])
+            ops.append("visit block n " + hx(header(pat) + cs(n) + tiny * n))
+    return ops
+
+
 def fam_mut(tier, rng):
     """P-mut: random byte / bit mutations, insertions and deletions of P-gram objects"""
     ops = []
